@@ -221,33 +221,64 @@ def view_state(ex, app=0):
     return dict(regs=regs, arrays=arrays, sregs=sregs, sarrays=sarrays, um=um, used=used)
 
 
+def host_lineno(sub_index, k):
+    """host-program line stamped on instruction k of subroutine sub_index: unrelated to k"""
+    return 40 + 11 * k + 3 * sub_index
+
+
 def run_case(case):
     """Run all subroutines of a case against ONE application state on the real
     Executor.  Returns a list (one per subroutine) of
     dict(out=(tag, class, line), pc=int, state=view), or None when the case is
-    discarded (an array longer than MAX_ARRAY would be created)."""
+    discarded (an array longer than MAX_ARRAY would be created; in the hardware
+    configuration: a value left the hardware width).
+    case["hostlines"]: two thirds of the instructions carry a HostLine (the SDK's
+    line tracker), as in a Subroutine handed over without serialisation.
+    case["hardware"]: run with set_is_using_hardware(True) (reset afterwards)."""
     st = _load()
+    from netqasm.runtime.settings import set_is_using_hardware
+    from netqasm.util.log import HostLine
+
     st["SMM"].reset_memories()
-    ex = st["StepBoundExecutor"](case["fuel"])
-    ex.init_new_application(app_id=0, max_qubits=case["cap"])
-    ex.script = list(case.get("script", []))
-    results = []
+    hardware = bool(case.get("hardware"))
+    set_is_using_hardware(hardware)
+    try:
+        ex = st["StepBoundExecutor"](case["fuel"])
+        ex.init_new_application(app_id=0, max_qubits=case["cap"])
+        ex.script = list(case.get("script", []))
+        results = []
+        for si, prog in enumerate(case["subs"]):
+            instrs = [build_instr(t) for t in prog]
+            if case.get("hostlines"):
+                for k, ins_ in enumerate(instrs):
+                    if k % 3 != 1:
+                        ins_.lineno = HostLine("host_program.py", host_lineno(si, k))
+            sub = st["Subroutine"](instructions=instrs, app_id=0)
+            ex.set_fuel(case["fuel"])
+            ex.final_pc = None
+            sid = ex._next_subroutine_id
+            try:
+                for _ in ex.execute_subroutine(sub):
+                    pass
+                out, pc = ("halt", "", None), ex.final_pc
+            except Exception as exc:  # noqa: the executor re-raises the class of the original error
+                if isinstance(exc, st["TooBig"]) or (hardware and isinstance(exc, OverflowError)):
+                    return None
+                out = canon_exc(exc)
+                pc = ex._program_counters.get(sid)
+            results.append(dict(out=list(out), pc=pc, state=view_state(ex), events=[list(e) for e in ex.events]))
+        return results
+    finally:
+        set_is_using_hardware(False)
+
+
+def narrow_case(case):
+    """keep every immediate inside the hardware width (32-bit signed) -- for the hardware configuration"""
     for prog in case["subs"]:
-        sub = st["Subroutine"](instructions=[build_instr(t) for t in prog], app_id=0)
-        ex.set_fuel(case["fuel"])
-        ex.final_pc = None
-        sid = ex._next_subroutine_id
-        try:
-            for _ in ex.execute_subroutine(sub):
-                pass
-            out, pc = ("halt", "", None), ex.final_pc
-        except Exception as exc:  # noqa: the executor re-raises the class of the original error
-            if isinstance(exc, st["TooBig"]):
-                return None
-            out = canon_exc(exc)
-            pc = ex._program_counters.get(sid)
-        results.append(dict(out=list(out), pc=pc, state=view_state(ex), events=[list(e) for e in ex.events]))
-    return results
+        for t in prog:
+            if t[0] == "set" and not (-2 ** 31 <= t[2] < 2 ** 31):
+                t[2] = t[2] % 97
+    return case
 
 
 # ---------------------------------------------------------------- Coq emission
@@ -552,7 +583,7 @@ FAULT_TARGETS = ["store-undef-reg", "store-undef-index", "load-undef-entry", "lo
                  "add-undef", "array-undef-size", "wait-all-blocked", "wait-any-empty", "wait-single-missing",
                  "wait-all-missing", "store-after-ret-arr", "redeclare-after-ret-arr", "branch-undef",
                  "negative-index", "jump-negative", "jump-past-end", "reg-index-16",
-                 "alloc-free-cycle", "counting-loop"]
+                 "alloc-free-cycle", "counting-loop", "undef-then-load"]
 
 
 ALLOC_TARGETS = {"double-alloc", "free-unallocated", "qalloc-outside", "qalloc-undef", "qfree-outside",
@@ -613,6 +644,8 @@ def gen_fault_case(rng, target, fuel=60):
         "alloc-free-cycle": [["set", q, rng.randint(0, cap - 1)]] + [[rng.choice(["qalloc", "qfree"]), q] if rng.random() < 0.25
                                                                       else [["qalloc", q], ["qfree", q]][k % 2] for k in range(rng.randint(2, 7))],
         "counting-loop": None,
+        "undef-then-load": [["set", q, n_arr + 2], ["array", q, A], ["store", d, A, 0], ["store", d, A, 1], ["undef", A, 1],
+                            ["load", e, A, 0], ["load", f_, A, 1]],
     }[target]
     if target == "counting-loop":
         return gen_loop_case(rng, P, free, cap, fuel)
